@@ -10,7 +10,6 @@ from __future__ import annotations
 
 import argparse
 import collections
-import concurrent.futures as cf
 import faulthandler
 import hashlib
 import json
@@ -110,6 +109,66 @@ def _digest_list(chk, base, start, count, tier):
 
 
 # ---------------------------------------------------------------- main side
+def _child_main(fn, arg, conn):
+    try:
+        res = fn(arg)
+        conn.send(('ok', res))
+    except BaseException:
+        try:
+            conn.send(('err', traceback.format_exc()[-3000:]))
+        except Exception:
+            pass
+    finally:
+        conn.close()
+        sys.stdout.flush()
+        os._exit(0)
+
+
+def run_chunks(fn, chunks, workers, chunk_timeout, wall_limit, merge):
+    """One forked child per chunk (a runaway vthread dies with its child), at most
+    `workers` at a time; results come back through a pipe.  Returns an error string
+    or None."""
+    ctx = mp.get_context('fork')
+    pending = list(reversed(chunks))
+    live = {}
+    t_end = time.time() + wall_limit
+    err = None
+    from multiprocessing.connection import wait as mpwait
+    while (pending or live) and err is None:
+        while pending and len(live) < workers:
+            c = pending.pop()
+            rd, wr = ctx.Pipe(duplex=False)
+            pr = ctx.Process(target=_child_main, args=(fn, c, wr), daemon=True)
+            pr.start()
+            wr.close()
+            live[rd] = (pr, c, time.time())
+        ready = mpwait(list(live), timeout=1.0)
+        now = time.time()
+        for rd in ready:
+            pr, c, t0 = live.pop(rd)
+            try:
+                kind, payload = rd.recv()
+            except EOFError:
+                kind, payload = 'err', f'worker for chunk {c[1:3]} died without a result'
+            rd.close()
+            pr.join(10)
+            if kind == 'ok':
+                merge(payload)
+            else:
+                err = f'worker failed on chunk {c[1:3]}: {payload}'
+        for rd, (pr, c, t0) in list(live.items()):
+            if now - t0 > chunk_timeout:
+                err = f'worker for chunk {c[1:3]} exceeded {chunk_timeout}s (killed)'
+        if now > t_end:
+            err = f'wall limit {wall_limit}s exceeded'
+    for rd, (pr, c, t0) in live.items():
+        try:
+            pr.kill()
+        except Exception:
+            pass
+    return err
+
+
 def load_known():
     path = os.path.join(VERIF, 'known_findings.json')
     if not os.path.exists(path):
@@ -218,36 +277,32 @@ def run_check(chk, argv=None):
         'violations': {}, 'harness': [], 'classes': collections.Counter(),
         'determinism_checked': 0, 'samples': [], 'sim_seconds': 0.0, 'states': set(),
     }
-    ctx = mp.get_context('fork')
-    deadline = budget.get('wall_limit', 3600)
-    try:
-        with cf.ProcessPoolExecutor(max_workers=workers, mp_context=ctx) as ex:
-            futs = [ex.submit(_worker_chunk, c) for c in chunks]
-            for f in cf.as_completed(futs, timeout=deadline):
-                a = f.result()
-                for key in ('runs', 'steps', 'switches', 'determinism_checked', 'sim_seconds'):
-                    total[key] += a[key]
-                total['stats'].update(a['stats'])
-                total['outcomes'].update(a['outcomes'])
-                total['classes'].update(a['classes'])
-                total['digests'] |= a['digests']
-                total['nontrivial'] |= a['nontrivial']
-                total['states'] |= a['states']
-                total['harness'].extend(a['harness'])
-                if len(total['samples']) < 3:
-                    total['samples'].extend(a['samples'][:1])
-                for sig, v in a['violations'].items():
-                    cur = total['violations'].get(sig)
-                    if cur is None:
-                        total['violations'][sig] = v
-                    else:
-                        n = cur['count'] + v['count']
-                        if (len(v['tape']), v['index']) < (len(cur['tape']), cur['index']):
-                            total['violations'][sig] = v
-                        total['violations'][sig]['count'] = n
-    except Exception as e:
-        print(f'HARNESS-ERROR worker pool failed: {e!r}')
-        traceback.print_exc()
+    def merge(a):
+        for key in ('runs', 'steps', 'switches', 'determinism_checked', 'sim_seconds'):
+            total[key] += a[key]
+        total['stats'].update(a['stats'])
+        total['outcomes'].update(a['outcomes'])
+        total['classes'].update(a['classes'])
+        total['digests'] |= a['digests']
+        total['nontrivial'] |= a['nontrivial']
+        total['states'] |= a['states']
+        total['harness'].extend(a['harness'])
+        if len(total['samples']) < 3:
+            total['samples'].extend(a['samples'][:1])
+        for sig, v in a['violations'].items():
+            cur = total['violations'].get(sig)
+            if cur is None:
+                total['violations'][sig] = v
+            else:
+                n = cur['count'] + v['count']
+                if (len(v['tape']), v['index']) < (len(cur['tape']), cur['index']):
+                    total['violations'][sig] = v
+                total['violations'][sig]['count'] = n
+
+    err = run_chunks(_worker_chunk, chunks, workers, budget.get('chunk_timeout', 600) + 30,
+                     budget.get('wall_limit', 3600), merge)
+    if err:
+        print(f'HARNESS-ERROR {err}')
         return 2
 
     # ---- cross-interpreter determinism (fresh process, other hash seeds)
